@@ -325,6 +325,48 @@ func c03d(c *Ctx) {
 		}
 		c.add(Result{Instance: inst, Verdict: Discharged, Sites: sitePositions(step.sites), Evals: 2, Detail: "success requires " + step.name + " to succeed when published size < lock size", Witnesses: f.WitEdges(succ)})
 	}
+	// equal sizes (the common clean restart): success must not depend on a staging bundle,
+	// which has been discarded after the last round
+	{
+		envEq := func(e ast.Expr) Tri {
+			if rel, ok := cmpRel(Atom{e, true}, isN(pubCk), isN(lockCk)); ok {
+				if rel&relEQ != 0 && rel&^relEQ == 0 {
+					return True
+				}
+				if rel&relEQ == 0 {
+					return False
+				}
+				if rel == relEQ|relLT || rel == relEQ|relGT {
+					return True
+				}
+			}
+			isH := func(o types.Object) func(ast.Expr) bool {
+				return func(x ast.Expr) bool {
+					r, p, ok := fieldPath(info, x)
+					return ok && r == o && len(p) == 1 && p[0] == "Hash"
+				}
+			}
+			if rel, ok := cmpRel(Atom{e, true}, isH(pubCk), isH(lockCk)); ok {
+				if rel == relEQ {
+					return True
+				}
+				if rel&relEQ == 0 {
+					return False
+				}
+			}
+			return Unknown
+		}
+		inst := f.Name + " published==lock: no staging needed"
+		cutEq := Cut{Edges: g.FeasibleCut(envEq)}
+		steps := append(append([]Site{}, fetches...), f.Calls(specApply)...)
+		if pt, _ := g.ReachableFromEntry(cutEq, atAnySite(steps)); pt != nil {
+			c.Bad(inst, f.Pos(pt.B.Nodes[pt.I]), "after a clean shutdown (published checkpoint == lock checkpoint) LoadLog still wants the staging bundle, which was discarded: the log could not be restarted")
+		} else if pt, _ := g.ReachableFromEntry(cutEq, atAnySite(okRets)); pt == nil {
+			c.Bad(inst, okRets[0].Pos(), "LoadLog cannot succeed when the published checkpoint equals the lock checkpoint")
+		} else {
+			c.add(Result{Instance: inst, Verdict: Discharged, Evals: 2, Detail: "success reachable, staging fetch/apply unreachable"})
+		}
+	}
 	// the applied bundle is the fetched one
 	for _, s := range f.Calls(specApply) {
 		a := argByName(info, s.Call, "stagedUploads")
